@@ -34,14 +34,14 @@ DURATIONS = list(P.DYADIC) + [1.00048828125, 0.3330078125]
 
 
 def cfg():
-    return P.GenCfg(kinds=KINDS, nq=4, max_items=10, max_depth=2, p_sub=18, p_rel=70, max_reps=3, globals_=True,
+    return P.GenCfg(kinds=KINDS, nq=4, max_items=10, max_depth=2, p_sub=18, p_rel=70, max_reps=3, top_reps=True, globals_=True,
                     global_zero=True, max_total_leaves=40, durations=DURATIONS)
 
 
 def cfg_dense():
     """Few qubits, many small (repeated) sub-circuits inside sub-circuits, followers of whole blocks."""
     return P.GenCfg(kinds=["Wait", "Wait", "Rx180", "CPhase", "Barrier", "DispersiveMeasure", "Reset", "VirtualPark"], nq=3,
-                    max_items=4, max_depth=2, p_sub=55, p_rel=50, max_reps=3, globals_=False, max_total_leaves=40, durations=DURATIONS)
+                    max_items=4, max_depth=2, p_sub=55, p_rel=50, max_reps=3, top_reps=True, globals_=False, max_total_leaves=40, durations=DURATIONS)
 
 
 def strat_dense():
